@@ -27,6 +27,8 @@ def make_probes(case, obs, want, shim):
             pr["overrides"] = x
     if "entries" in want:
         pr["entries"] = P.probe_entries(out, shim)
+    if "impls" in want:
+        pr["impls"] = P.probe_impls(out)
     if "wgpu" in want:
         pr["wgpu"] = P.probe_wgpu_validate(out)
     if "encase" in want and case.get("S") and case.get("opts", {}).get("enc"):
